@@ -58,23 +58,24 @@ type vpSigned struct {
 
 // vpWorld is everything around the State under test.
 type vpWorld struct {
-	R       int                        // rounds 0..R are modelled (R+1 exists as the "next round" consensus tracks)
-	keys    []ed25519.PrivKey          // validator keys, index = validator index
-	cs      *State
-	blocks  map[int8]*vpBlockInfo      // A, B, C
-	valid   map[int8]bool              // verdict of ValidateBlock per block (fixed per path)
-	maj     [][2]int8                  // maj[r][t]: 0 none, 1 nil, 2.. block codes; t: 0 prevote, 1 precommit
-	any     [][2]bool
-	all     [][2]bool
-	handles [][2]*types.VoteSet
-	pv, pc  []int8                     // ghost: what we prevoted / precommitted in round r (cNone = nothing)
-	prop    []int8                     // ghost: what we proposed in round r
-	propPOL []int32
-	signedNow []vpSigned               // signatures released during the step
-	saved   []*types.Block             // blocks handed to the block store during the step
-	applied []*types.Block
-	timeouts []timeoutInfo
-	ourIdx  int
+	slice     int               // which part of the pre-state / event space this entry covers (vpSlice*)
+	R         int               // rounds 0..R are modelled (R+1 exists as the "next round" consensus tracks)
+	keys      []ed25519.PrivKey // validator keys, index = validator index
+	cs        *State
+	blocks    map[int8]*vpBlockInfo // A, B, C
+	valid     map[int8]bool         // verdict of ValidateBlock per block (fixed per path)
+	maj       [][2]int8             // maj[r][t]: 0 none, 1 nil, 2.. block codes; t: 0 prevote, 1 precommit
+	any       [][2]bool
+	all       [][2]bool
+	handles   [][2]*types.VoteSet
+	pv, pc    []int8 // ghost: what we prevoted / precommitted in round r (cNone = nothing)
+	prop      []int8 // ghost: what we proposed in round r
+	propPOL   []int32
+	signedNow []vpSigned     // signatures released during the step
+	saved     []*types.Block // blocks handed to the block store during the step
+	applied   []*types.Block
+	timeouts  []timeoutInfo
+	ourIdx    int
 }
 
 func t01(t tmproto.SignedMsgType) int {
@@ -119,10 +120,10 @@ func (w *vpWorld) idOf(code int8) types.BlockID {
 
 type vpTicker struct{ w *vpWorld }
 
-func (t *vpTicker) Start() error                  { return nil }
-func (t *vpTicker) Stop() error                   { return nil }
-func (t *vpTicker) Chan() <-chan timeoutInfo      { return nil }
-func (t *vpTicker) SetLogger(log.Logger)          {}
+func (t *vpTicker) Start() error                   { return nil }
+func (t *vpTicker) Stop() error                    { return nil }
+func (t *vpTicker) Chan() <-chan timeoutInfo       { return nil }
+func (t *vpTicker) SetLogger(log.Logger)           {}
 func (t *vpTicker) ScheduleTimeout(ti timeoutInfo) { t.w.timeouts = append(t.w.timeouts, ti) }
 
 type vpBlockStoreStub struct {
@@ -383,6 +384,8 @@ func (w *vpWorld) installStubs() {
 		return true, nil
 	})
 	vp.Stub("(*github.com/tendermint/tendermint/libs/pubsub.Server).PublishWithEvents", func() error { return nil })
+	// the step's name goes into events and logs only
+	vp.Stub("(github.com/tendermint/tendermint/consensus/types.RoundStepType).String", func(cstypes.RoundStepType) string { return "step" })
 	// metrics only; walks the individual prevotes, which the summary does not contain
 	vp.Stub("(*github.com/tendermint/tendermint/consensus.State).calculatePrevoteMessageDelayMetrics", func(cs *State) {})
 	vp.Stub(bp+"ValidateBlock", func(be *sm.BlockExecutor, st sm.State, b *types.Block) error {
@@ -421,6 +424,9 @@ func (w *vpWorld) symbolicPreState() {
 	R := int32(w.R)
 	cs.Round = vp.Int32("Round")
 	vp.Assume(vp.And(cs.Round >= 0, cs.Round <= R))
+	if w.slice == vpSliceLockFocusTop {
+		vp.Assume(cs.Round == R)
+	}
 	st := vp.Uint8("Step")
 	vp.Assume(vp.And(st >= uint8(cstypes.RoundStepNewHeight), st <= uint8(cstypes.RoundStepCommit)))
 	cs.Step = cstypes.RoundStepType(st)
@@ -436,15 +442,24 @@ func (w *vpWorld) symbolicPreState() {
 	vp.Assume(vp.And(cs.LockedRound >= -1, cs.LockedRound <= R, cs.ValidRound >= -1, cs.ValidRound <= R, cs.CommitRound >= -1, cs.CommitRound <= R+1))
 	cs.TriggeredTimeoutPrecommit = vp.Bool("TriggeredTimeoutPrecommit")
 	pick := func(name string, opts []int8) int8 { return opts[vp.Choice(name, len(opts))] }
-	if lb := pick("LockedBlock", []int8{cNone, cA}); lb != cNone {
+	lbOpts, vbOpts, pbOpts, partsOpts := []int8{cNone, cA}, []int8{cNone, cA, cB}, []int8{cNone, cA, cB, cC}, 3
+	switch w.slice {
+	case vpSliceLocked:
+		lbOpts, vbOpts, pbOpts, partsOpts = []int8{cA}, []int8{cA, cB}, []int8{cNone, cA, cB}, 1
+	case vpSliceUnlocked:
+		lbOpts, partsOpts = []int8{cNone}, 1
+	case vpSliceLockFocus, vpSliceLockFocusTop:
+		lbOpts, vbOpts, pbOpts, partsOpts = []int8{cA}, []int8{cA}, []int8{cNone, cA}, 1
+	}
+	if lb := pick("LockedBlock", lbOpts); lb != cNone {
 		cs.LockedBlock, cs.LockedBlockParts = w.blocks[lb].block, w.blocks[lb].parts
 	}
-	if vb := pick("ValidBlock", []int8{cNone, cA, cB}); vb != cNone {
+	if vb := pick("ValidBlock", vbOpts); vb != cNone {
 		cs.ValidBlock, cs.ValidBlockParts = w.blocks[vb].block, w.blocks[vb].parts
 	}
-	switch pb := pick("ProposalBlock", []int8{cNone, cA, cB, cC}); pb {
+	switch pb := pick("ProposalBlock", pbOpts); pb {
 	case cNone:
-		switch vp.Choice("ProposalBlockParts", 3) {
+		switch vp.Choice("ProposalBlockParts", partsOpts) {
 		case 1:
 			cs.ProposalBlockParts = types.NewPartSetFromHeader(w.blocks[cA].parts.Header())
 		case 2:
@@ -454,7 +469,11 @@ func (w *vpWorld) symbolicPreState() {
 		cs.ProposalBlock, cs.ProposalBlockParts = w.blocks[pb].block, w.blocks[pb].parts
 	}
 	// after receipt only Proposal.POLRound (and the timestamp, for metrics) is ever read again: the block it names is irrelevant
-	if pp := pick("Proposal", []int8{cNone, cA}); pp != cNone {
+	ppOpts := []int8{cNone, cA}
+	if w.slice == vpSliceLockFocus || w.slice == vpSliceLockFocusTop {
+		ppOpts = []int8{cNone}
+	}
+	if pp := pick("Proposal", ppOpts); pp != cNone {
 		pol := vp.Int32("Proposal.POLRound")
 		vp.Assume(vp.And(pol >= -1, pol < cs.Round))
 		cs.Proposal = types.NewProposal(vpH, cs.Round, pol, w.blocks[pp].id)
@@ -649,7 +668,14 @@ func (w *vpWorld) applyEvent(kind int) string {
 	R := int32(w.R)
 	switch kind {
 	case 0: // a vote from a peer (or our own, coming back through the internal queue)
-		v := &types.Vote{Height: vpH + int64(vp.Choice("vote-height", 3)) - 1, ValidatorIndex: 1, ValidatorAddress: w.keys[1].PubKey().Address()}
+		vh := int64(vpH)
+		voteBlocks := []int8{cNil, cA, cB, cC}
+		if w.slice == vpSliceFull {
+			vh = vpH + int64(vp.Choice("vote-height", 3)) - 1
+		} else {
+			voteBlocks = []int8{cNil, cA, cB}
+		}
+		v := &types.Vote{Height: vh, ValidatorIndex: 1, ValidatorAddress: w.keys[1].PubKey().Address()}
 		v.Round = vp.Int32("vote.Round")
 		vp.Assume(vp.And(v.Round >= 0, v.Round <= R+1))
 		if vp.Bool("vote-is-precommit") {
@@ -657,7 +683,7 @@ func (w *vpWorld) applyEvent(kind int) string {
 		} else {
 			v.Type = tmproto.PrevoteType
 		}
-		v.BlockID = w.idOf(w.pickBlock("vote-block", []int8{cNil, cA, cB, cC}))
+		v.BlockID = w.idOf(w.pickBlock("vote-block", voteBlocks))
 		cs.handleMsg(msgInfo{Msg: &VoteMessage{Vote: v}, PeerID: "peer"})
 		return "vote"
 	case 1: // a timeout that was scheduled earlier
@@ -762,9 +788,10 @@ func (w *vpWorld) postChecks(pre vpSnapshot, ev string) {
 }
 
 // vpC02Step: one step from an arbitrary state satisfying the invariant.
-func vpC02Step(R int, kind int) {
+func vpC02Step(R int, kind int, slice int) {
 	vp.Opt("conccap", 16)
 	w := vpNewWorld(R, 0) // we are validator 0 (a node that is not a validator signs nothing)
+	w.slice = slice
 	w.symbolicPreState()
 	cj, _ := w.invParts()
 	vp.AssumeAll(cj)
@@ -793,13 +820,35 @@ func VP_C02_Base() {
 	vp.Reach("pre-state")
 }
 
-func VP_C02_Step_R1_vote()     { vpC02Step(1, 0) }
-func VP_C02_Step_R1_timeout()  { vpC02Step(1, 1) }
-func VP_C02_Step_R1_proposal() { vpC02Step(1, 2) }
-func VP_C02_Step_R1_part()     { vpC02Step(1, 3) }
-func VP_C02_Step_R1_txs()      { vpC02Step(1, 4) }
-func VP_C02_Step_R2_vote()     { vpC02Step(2, 0) }
-func VP_C02_Step_R2_timeout()  { vpC02Step(2, 1) }
-func VP_C02_Step_R2_proposal() { vpC02Step(2, 2) }
-func VP_C02_Step_R2_part()     { vpC02Step(2, 3) }
-func VP_C02_Step_R2_txs()      { vpC02Step(2, 4) }
+// Slices of the pre-state / event space (each entry states which one it covers).
+const (
+	vpSliceFull      = 0 // every shape: locked or not, any valid block, any proposal block or part set, votes of the previous/current/next height for nil/A/B/C
+	vpSliceLocked    = 1 // locked on A; valid block A or B; proposal block none/A/B; votes of the current height for nil/A/B
+	vpSliceUnlocked  = 2 // not locked; any valid block; proposal block none/A/B/C; votes of the current height for nil/A/B
+	vpSliceLockFocus = 3 // locked on A, valid block A, proposal block none/A, no proposal message; votes of the current height for nil/A/B
+)
+
+const vpSliceLockFocusTop = 4 // as vpSliceLockFocus, and the node is in the highest modelled round
+
+func VP_C02_Step_R2_vote_lockfocus_top() { vpC02Step(2, 0, vpSliceLockFocusTop) }
+func VP_C02_Step_R1_vote_lockfocus()     { vpC02Step(1, 0, vpSliceLockFocus) }
+func VP_C02_Step_R2_vote_lockfocus()     { vpC02Step(2, 0, vpSliceLockFocus) }
+func VP_C02_Step_R1_timeout_lockfocus()  { vpC02Step(1, 1, vpSliceLockFocus) }
+func VP_C02_Step_R1_part_lockfocus()     { vpC02Step(1, 3, vpSliceLockFocus) }
+
+func VP_C02_Step_R1_vote()             { vpC02Step(1, 0, vpSliceFull) }
+func VP_C02_Step_R1_timeout()          { vpC02Step(1, 1, vpSliceFull) }
+func VP_C02_Step_R1_proposal()         { vpC02Step(1, 2, vpSliceFull) }
+func VP_C02_Step_R1_part()             { vpC02Step(1, 3, vpSliceFull) }
+func VP_C02_Step_R1_txs()              { vpC02Step(1, 4, vpSliceFull) }
+func VP_C02_Step_R1_vote_locked()      { vpC02Step(1, 0, vpSliceLocked) }
+func VP_C02_Step_R1_vote_unlocked()    { vpC02Step(1, 0, vpSliceUnlocked) }
+func VP_C02_Step_R1_timeout_locked()   { vpC02Step(1, 1, vpSliceLocked) }
+func VP_C02_Step_R1_timeout_unlocked() { vpC02Step(1, 1, vpSliceUnlocked) }
+func VP_C02_Step_R1_proposal_locked()  { vpC02Step(1, 2, vpSliceLocked) }
+func VP_C02_Step_R1_part_locked()      { vpC02Step(1, 3, vpSliceLocked) }
+func VP_C02_Step_R2_vote_locked()      { vpC02Step(2, 0, vpSliceLocked) }
+func VP_C02_Step_R2_timeout_locked()   { vpC02Step(2, 1, vpSliceLocked) }
+func VP_C02_Step_R2_proposal_locked()  { vpC02Step(2, 2, vpSliceLocked) }
+func VP_C02_Step_R2_part_locked()      { vpC02Step(2, 3, vpSliceLocked) }
+func VP_C02_Step_R2_vote()             { vpC02Step(2, 0, vpSliceFull) }
